@@ -394,14 +394,14 @@ func exec(version string, h []event, verifyAll bool) (string, string, *seqx.Fail
 	return canon, outcome, nil
 }
 
-// blame names the failing input class: the non-valid content classes on disk, or - when everything on disk
-// is plain valid content - which file(s) changed.
+// blame names the failing input class: the non-valid content classes among the files that differ from the
+// running configuration, or - when those are all plain valid content - which file(s) differ.
 func blame(which string, cc, rc content) string {
 	var p []string
-	if cc.Class != "valid" {
+	if cc.Class != "valid" && strings.Contains(which, "config") {
 		p = append(p, "config["+cc.Class+"]")
 	}
-	if rc.Class != "valid" {
+	if rc.Class != "valid" && strings.Contains(which, "rules") {
 		p = append(p, "rules["+rc.Class+"]")
 	}
 	if len(p) == 0 {
